@@ -22,7 +22,7 @@ ASSUMPTIONS = ["'identically seeded' = the same seed passed to every stochastic 
 
 def run(ctx):
     classes = pat_props.focus_classes()
-    n_cases = ctx.scale(2500, 60000)
+    n_cases = ctx.scale(2500, 250000)
     scripts, meta = [], {}
     for i in range(n_cases):
         cls = classes[i % len(classes)]
